@@ -521,7 +521,7 @@ func emitEngines(repo, out string, b *pkgInfo) {
 	w("")
 
 	// ---- pkg/board ----
-	{
+	section(&sb, "Engines.lean", "pkg/board", func() {
 		q := b.stmts(b, "PromotionRank", "")
 		r := q.run("if c == White", "return *", "return *")
 		w("-- pkg/board/square.go PromotionRank: `if c == White { return <rank> } else { return <rank> }`")
@@ -529,10 +529,10 @@ func emitEngines(repo, out string, b *pkgInfo) {
 		w("def promotionRankBlack : Nat := %s", b.constInt(strings.TrimPrefix(r[2].skel, "return ")))
 		q.done()
 		w("")
-	}
+	})
 
 	// ---- pkg/eval, pkg/search ----
-	{
+	section(&sb, "Engines.lean", "pkg/eval, pkg/search", func() {
 		q := ev.stmts(b, "FindCapture", "")
 		r := q.run("var ret []board.Placement", "range _ | piece | board.*")
 		name, list := boardListOf(b, r[1].skel)
@@ -556,10 +556,10 @@ func emitEngines(repo, out string, b *pkgInfo) {
 		w("def mvvlvaNone : Int := %s", leanInt(q.lit("return #")))
 		q.done()
 		w("")
-	}
+	})
 
 	// ---- cmd/bernstein/bernstein/eval.go ----
-	{
+	section(&sb, "Engines.lean", "bernstein eval", func() {
 		w("-- cmd/bernstein/bernstein/eval.go")
 		q := be.stmts(b, "MaterialValue", "")
 		q.one("switch piece")
@@ -624,10 +624,10 @@ func emitEngines(repo, out string, b *pkgInfo) {
 		q.one("if !pos.IsDefended(side, sq)")
 		q.done()
 		w("")
-	}
+	})
 
 	// ---- cmd/bernstein/bernstein/search.go ----
-	{
+	section(&sb, "Engines.lean", "bernstein search", func() {
 		w("-- cmd/bernstein/bernstein/search.go")
 		q := be.stmts(b, "truncate", "")
 		w("-- truncate: `if limit > <min> && len(list) > limit`")
@@ -737,10 +737,10 @@ func emitEngines(repo, out string, b *pkgInfo) {
 		w("def bernsteinDefaultMaterial : Int := %s", flagOf(fl, "material"))
 		w("def bernsteinDefaultNoise : Int := %s", flagOf(fl, "noise"))
 		w("")
-	}
+	})
 
 	// ---- cmd/sargon/sargon ----
-	{
+	section(&sb, "Engines.lean", "sargon", func() {
 		w("-- cmd/sargon/sargon/eval.go")
 		q := sa.stmts(b, "Evaluate", "Points")
 		r := q.run("if ptschk", "return mtrl*# + brdc/#")
@@ -884,10 +884,10 @@ func emitEngines(repo, out string, b *pkgInfo) {
 		w("def sargonDefaultPly : Int := %s", flagOf(fl, "ply"))
 		w("def sargonDefaultNoise : Int := %s", flagOf(fl, "noise"))
 		w("")
-	}
+	})
 
 	// ---- cmd/turochamp/turochamp ----
-	{
+	section(&sb, "Engines.lean", "turochamp", func() {
 		w("-- cmd/turochamp/turochamp/eval.go")
 		q := tu.stmts(b, "pieceValue", "")
 		q.one("switch piece")
@@ -994,7 +994,7 @@ func emitEngines(repo, out string, b *pkgInfo) {
 		w("-- cmd/turochamp/main.go: flag defaults")
 		w("def turochampDefaultPly : Int := %s", flagOf(fl, "ply"))
 		w("def turochampDefaultNoise : Int := %s", flagOf(fl, "noise"))
-	}
+	})
 
 	w("")
 	w("end Morlock.Gen")
